@@ -679,3 +679,21 @@ func Render(t *tape.Tape, doc *Node, allowYAML bool) ([]byte, string) {
 	}
 	return doc.ToJSON(nil), "json"
 }
+
+// RenderMaybeMerged is Render that, one time in four, uses RenderMerged when the document allows it.
+func RenderMaybeMerged(t *tape.Tape, doc *Node, allowYAML bool) ([]byte, string) {
+	if allowYAML && doc.Kind == KMap && t.Draw(4, "render:merged?") == 3 {
+		if b, _, ok := RenderMerged(t, doc); ok {
+			return b, "yaml+merges"
+		}
+	}
+	return Render(t, doc, allowYAML)
+}
+
+// RenderMerged renders doc as YAML in which parts of step mappings come from `<<` merges of anchored templates.
+// The rendered document has the same content as doc plus a first top-level key "x-templates". ok=false if
+// the document does not lend itself to it.
+func RenderMerged(t *tape.Tape, doc *Node) ([]byte, int, bool) {
+	st := &YAMLStyle{T: t, Quote: t.Draw(2, "render:quote") == 1}
+	return doc.ToYAMLWithMerges(st)
+}
